@@ -429,3 +429,55 @@ Theorem c02_float32_number_literal :
   | None => Out false (Some (perr_c PRange)) end.
 Proof. exact C02d.c02_float32_number_literal. Qed.
 Print Assumptions c02_float32_number_literal.
+
+(* ... and for decimal literals with an exponent - [-] digits [. digits] (e|E) [+|-] digits, which only a quoted literal can spell:
+   read as mant * 10^(exponent - |fraction|), rounded once; the statement of number_literal_nearest for n / d = dec_num / dec_den. *)
+From Bexpr Require Import FloatLit3.
+Theorem sci_literal_nearest :
+  forall (sg : bool) (ip : list Z) (fo : option (list Z)) (ec : Ascii.ascii) (xsg : option bool) (xs : list Z) (bits p ebits emin emaxe b : Z),
+  (bits = 64 /\ p = 53 /\ ebits = 11 /\ emin = -1074 /\ emaxe = 971) \/ (bits = 32 /\ p = 24 /\ ebits = 8 /\ emin = -149 /\ emaxe = 104) ->
+  ip <> [] -> Forall is_digit ip -> frac_ok fo -> (ec = "e"%char \/ ec = "E"%char) -> xs <> [] -> Forall is_digit xs ->
+  let mant := dval (ip ++ frac_digits fo) 0 in
+  let e10 := exp_val xsg xs - Z.of_nat (List.length (frac_digits fo)) in
+  let n := dec_num mant e10 in let d := dec_den e10 in
+  0 < mant ->
+  parse_float (sign_str sg ++ sci_body ip fo ec xsg xs) bits = POk b ->
+  exists m e, b = float_bits sg (Some (m, e)) p ebits /\
+    (0 <= m < 2 ^ p /\ emin <= e <= emaxe /\ (e = emin \/ 2 ^ (p - 1) <= m)) /\
+    (forall m' e2, 0 <= m' < 2 ^ p -> emin <= e2 -> D n d m e * pn e2 <= D n d m' e2 * pn e) /\
+    (2 * D n d m e = d * pp e -> Z.even m = true).
+Proof. exact FloatLit3.sci_literal_nearest. Qed.
+Print Assumptions sci_literal_nearest.
+
+Theorem sci_literal_instances :
+  (sign_str true ++ sci_body [1] (Some [5]) "e" (Some true) [3] = "-1.5e-3" /\ sign_str false ++ sci_body [2] None "E" None [1; 0] = "2E10")%string /\
+  parse_float "-1.5e-3" 64 = POk 13787932388781358842.
+Proof. exact FloatLit3.sci_examples. Qed.
+Print Assumptions sci_literal_instances.
+
+(* ... and for hexadecimal float literals - [-] 0x hexdigits [. hexdigits] p [+|-] digits: mant * 2^(exponent - 4 * |fraction|), rounded once.
+   With number_literal_nearest and sci_literal_nearest this covers every spelling strconv.ParseFloat accepts except underscores, a leading
+   `+`, upper-case hexadecimal digits and the words inf / infinity / nan. *)
+From Bexpr Require Import C02b FloatLit4.
+Theorem hex_literal_nearest :
+  forall (sg : bool) (xc : Ascii.ascii) (hip : list Z) (fo : option (list Z)) (pc : Ascii.ascii) (xsg : option bool) (xs : list Z) (bits p ebits emin emaxe b : Z),
+  (bits = 64 /\ p = 53 /\ ebits = 11 /\ emin = -1074 /\ emaxe = 971) \/ (bits = 32 /\ p = 24 /\ ebits = 8 /\ emin = -149 /\ emaxe = 104) ->
+  (xc = "x"%char \/ xc = "X"%char) -> (pc = "p"%char \/ pc = "P"%char) ->
+  hip <> [] -> Forall (is_digit_b 16) hip -> hfrac_ok fo -> xs <> [] -> Forall is_digit xs ->
+  let mant := dval_b 16 (hip ++ frac_digits fo) 0 in
+  let e2 := exp_val xsg xs - 4 * Z.of_nat (List.length (frac_digits fo)) in
+  let n := hex_num mant e2 in let d := hex_den e2 in
+  0 < mant ->
+  parse_float (sign_str sg ++ hex_body xc hip fo pc xsg xs) bits = POk b ->
+  exists m e, b = float_bits sg (Some (m, e)) p ebits /\
+    (0 <= m < 2 ^ p /\ emin <= e <= emaxe /\ (e = emin \/ 2 ^ (p - 1) <= m)) /\
+    (forall m' e', 0 <= m' < 2 ^ p -> emin <= e' -> D n d m e * pn e' <= D n d m' e' * pn e) /\
+    (2 * D n d m e = d * pp e -> Z.even m = true).
+Proof. exact FloatLit4.hex_literal_nearest. Qed.
+Print Assumptions hex_literal_nearest.
+
+Theorem hex_literal_instances :
+  (sign_str false ++ hex_body "x" [1] (Some [8]) "p" (Some false) [3] = "0x1.8p+3" /\ sign_str true ++ hex_body "X" [15; 15] None "P" (Some true) [2] = "-0XffP-2")%string /\
+  parse_float "0x1.8p+3" 64 = POk 4622945017495814144.
+Proof. exact FloatLit4.hex_examples. Qed.
+Print Assumptions hex_literal_instances.
